@@ -33,3 +33,18 @@ func VerifIP(m consoleui.Mode) (uint64, bool) {
 	}
 	return uint64(e.emul.MustIP()), true
 }
+
+// VerifRegs returns the registers the emulator of an emulate mode knows (constant values as little endian bytes).
+func VerifRegs(m consoleui.Mode) (map[string][]byte, bool) {
+	e, ok := m.(*mode)
+	if !ok {
+		return nil, false
+	}
+	out := make(map[string][]byte)
+	for k, v := range e.emul.State.Regs.Values() {
+		if c, ok := v.(expr.Const); ok {
+			out[string(k)] = append([]byte{}, c.Bytes()...)
+		}
+	}
+	return out, true
+}
